@@ -1,5 +1,5 @@
 \* C20 quick: simulated histories
-\* run by hand:  cd spec && tlc -workers 8 Gen_Dataset.tla -config cfg/C20__Gen_Dataset__simulated_histories.cfg -simulate num=500 -depth 15 -seed 2
+\* run by hand:  cd spec && tlc -workers 8 Gen_Dataset.tla -config cfg/C20__Gen_Dataset__simulated_histories.cfg -simulate num=500 -depth 15 -seed 1
 INIT GenInit
 NEXT GenNext
 CONSTANTS
